@@ -144,6 +144,13 @@ def run_case(case, ctx):
     lo = 0.3 if case['fun'] in ('sqrt', 'recip', 'mobius') else -3.0
     x = rng.uniform(lo, 3.0, size=size)
     x = np.where(np.abs(x) < 0.2, 0.7, x).reshape(shape)
+    if case['seed'] % 7 == 3 and shape and size >= 2:
+        # elements that are nearly (1e-9 .. 1e-5 relative) but not exactly equal, beyond 1 in magnitude: their steps differ in the
+        # last digits only
+        base_ = float(rng.choice([-1.0, 1.0]) * rng.uniform(1.5, 3.0))
+        x = (base_ * (1.0 + rng.choice([-1.0, 1.0], size=size) * 10.0 ** rng.uniform(-9, -5, size=size))).reshape(shape)
+        x.flat[0] = base_
+        ctx.count('nearly_equal_elements')
     if case['seed'] % 5 == 0:
         # polynomials at dyadic points: the differences are computed without rounding, so several rows of the table carry
         # *exactly* equal error estimates (ties) - which row wins must not depend on the other elements of the array
